@@ -71,6 +71,13 @@ fn run_line(line: &str) -> String {
     "BADCASE".to_string()
 }
 
+/// an error answer: the error's Display and Debug texts are produced too (and dropped), so that a formatting routine that
+/// panics on hostile input is exercised
+pub fn err_shown<E: std::fmt::Display + std::fmt::Debug>(e: &E) -> String {
+    let _ = format!("{} {:?}", e, e);
+    "ERR".to_string()
+}
+
 fn main() {
     panic::set_hook(Box::new(|_| {}));
     let with_peak = std::env::args().any(|a| a == "--peak");
